@@ -28,10 +28,16 @@ pub fn start_server() -> Server {
   crate::util::tool_error("in-process server did not start");
 }
 
+/// The client keeps a small pool of connections and uses them in turn, so that consecutive requests are
+/// served by different workers of the service.
 pub struct Client {
   port: u16,
   stream: Option<TcpStream>,
+  parked: Vec<Option<TcpStream>>,
+  turn: usize,
 }
+
+const CONNECTIONS: usize = 4;
 
 pub struct Response {
   pub status: u16,
@@ -40,7 +46,7 @@ pub struct Response {
 
 impl Client {
   pub fn new(port: u16) -> Self {
-    Client { port, stream: None }
+    Client { port, stream: None, parked: (0..CONNECTIONS).map(|_| None).collect(), turn: 0 }
   }
   fn connect(&mut self) -> Option<&mut TcpStream> {
     if self.stream.is_none() {
@@ -54,6 +60,14 @@ impl Client {
   }
   /// Sends one request; `None` when the service gave no (complete) HTTP response.
   pub fn request(&mut self, method: &str, path: &str, content_type: &str, body: &[u8]) -> Option<Response> {
+    // take the next connection of the pool
+    self.turn = (self.turn + 1) % CONNECTIONS;
+    self.stream = self.parked[self.turn].take();
+    let r = self.request_on_current(method, path, content_type, body);
+    self.parked[self.turn] = self.stream.take();
+    r
+  }
+  fn request_on_current(&mut self, method: &str, path: &str, content_type: &str, body: &[u8]) -> Option<Response> {
     for attempt in 0..2 {
       let r = self.try_request(method, path, content_type, body);
       if r.is_some() {
